@@ -53,8 +53,10 @@ Canon(kind, v) == IF IsFloatKind(kind) /\ IsNaN(kind, v) THEN CanonNaN(kind) ELS
 
 \* exact binary floats: (-1)^sign * n * 2^e2 with 0 <= n < 2^24
 BitLenNat(n) == CHOOSE k \in 1..31 : 2 ^ (k - 1) <= n /\ n < 2 ^ k
-RECURSIVE ShlBy(_, _)
-ShlBy(b, k) == IF k = 0 THEN b ELSE ShlBy(Shl1(b), k - 1)
+\* b shifted left by k bits, same length (one level: no chain of closures)
+ShlBy(b, k) == Force([j \in 1..Len(b) |->
+                 LET Bit(t) == LET src == 8 * (j - 1) + t - k IN IF src < 0 THEN 0 ELSE BitAt(b, src)
+                 IN Bit(0) + 2 * Bit(1) + 4 * Bit(2) + 8 * Bit(3) + 16 * Bit(4) + 32 * Bit(5) + 64 * Bit(6) + 128 * Bit(7)])
 ExactF32(sign, n, e2) ==
   IF n = 0 THEN <<0, 0, 0, sign * 128>>
   ELSE LET bl == BitLenNat(n)
